@@ -148,6 +148,15 @@ def check(ctx, p, T, m, al, wit, workload):
         w["before_edit"] = True
         snapshot.edit_returned_values(p, [m])
         contracts.drain()
+    if ctx.rng.random() < 0.1:
+        # earlier in the process somebody rendered something inside a format block (successfully) and left it: expansions afterwards are in the default format
+        from decaylanguage.utils.utilities import DescriptorFormat as _DF  # noqa: PLC0415
+
+        ctx.hit("expand-after-a-format-block-that-was-left")
+        w["format_block_before"] = True
+        with _DF("{mother} => {daughters}", "[{mother} => {daughters}]"):
+            if ctx.rng.random() < 0.5:
+                _DF.set_config("{mother} --> {daughters}", "<{mother} --> {daughters}>")
     if ctx.rng.random() < 0.15:
         # earlier in the process somebody asked for a descriptor format the library refuses: the refusal changes nothing for later expansions
         from decaylanguage.utils.utilities import DescriptorFormat  # noqa: PLC0415
